@@ -31,7 +31,7 @@ type CliCase struct {
 	Extra    []string `json:"extra_args"`
 }
 
-var cliFileKinds = []string{"accepted", "accepted", "type-error", "syntax-error", "empty", "missing", "directory", "truncated", "junk", "long-line", "no-final-newline"}
+var cliFileKinds = []string{"accepted", "accepted", "type-error", "syntax-error", "empty", "missing", "directory", "truncated", "junk", "long-line", "no-final-newline", "annotated-linear", "annotated-linear"}
 
 func DrawCliCase(ch Chooser) *CliCase {
 	c := &CliCase{FileArg: "p.grits"}
@@ -71,6 +71,9 @@ func DrawCliCase(ch Chooser) *CliCase {
 			rest = gen.MutateBytes(ch.Intn, rest, 2)
 		}
 		c.Text = "prc[first] : 1 = print p; close self\n" + long + "\n" + rest
+	case "annotated-linear":
+		// runs with or without the typechecker: linear, forwards carry explicit polarities
+		c.Text = gen.Generate(ch.Intn, gen.Options{Untypeable: true}).Text()
 	case "no-final-newline":
 		c.Text = strings.TrimRight(prog.Text(), "\n")
 	default:
@@ -250,6 +253,16 @@ func ExecCliCase(bin, dir string, c *CliCase) (*Violation, cliOutcome, cliFacts)
 	// ends in its "unknown polarity" diagnostic even for well-typed programs) and an ill-typed
 	// program may fail in any way; nothing is asserted about status or output of such a run.
 	if !e.typecheck && e.execute && shouldSucceed {
+		if c.FileKind == "annotated-linear" && f.TypeOK && !e.sync && e.chooses {
+			// a well-typed linear program whose forwards are annotated needs no type information at
+			// run time: it must run to the end without the checker as well
+			if hasPanicTrace(o) {
+				return mk("panic-trace", fmt.Sprintf("`%s` (annotated linear program, typechecking disabled) died with a Go panic trace: %s", cmdline, trunc(o.Stderr, 200))), o, f
+			}
+			if o.Exit != 0 {
+				return mk("exit-nonzero", fmt.Sprintf("`%s` (annotated linear program, typechecking disabled) exited %d: %s", cmdline, o.Exit, trunc(o.Stderr, 200))), o, f
+			}
+		}
 		return nil, o, f
 	}
 	if o.Exit != 0 && out > 0 {
